@@ -59,6 +59,6 @@ _whole.install(globals(), "C05",
                     "pass-through GSC seeing every consult (the machine REJECTS a false verdict after a true one, a metaepoch without a false consult, a sprout after the observation).",
                note="nit through minimize() is checked by the C03/C05 monitors on real runs (minimize wiring is not in the machine).",
                technique="Coq invariant (wind-down ghost counters) over all event streams + vm_compute trace replay against the real package",
-               front_ends=["driver", "stops"], quick=240, thorough=6000, nontrivial=nontrivial, extra_checks=[minimize_nit, _whole.make_sessions("C05", {"gsc": {"kind": "SingularEval", "limit": 150}, "height": 2})],
+               front_ends=["driver", "stops", "minimize"], quick=240, thorough=6000, nontrivial=nontrivial, extra_checks=[minimize_nit, _whole.make_sessions("C05", {"gsc": {"kind": "SingularEval", "limit": 150}, "height": 2})],
                forces=[(2, None), (1, {"gsc": {"kind": "SingularEval", "limit": 120}}), (1, {"gsc": {"kind": "FitnessEval", "limit": 300, "weights": "equal"}}),
                        (1, {"gsc": {"kind": "MetaepochLimit", "n": 3}})])
